@@ -247,6 +247,39 @@ Arguments init_eager {A}. Arguments init_lazy {A}. Arguments step {A}. Arguments
 Arguments fetched {A}. Arguments delivered {A}. Arguments is_append {A}. Arguments is_fetch {A}.
 Arguments is_mat {A}. Arguments fetch_size {A}.
 
+(* ---- renaming rows: the same history on a frame whose rows are the images under f ---- *)
+Section MapRows.
+Variables A B : Type.
+Variable f : A -> B.
+
+Definition map_st (s : st A) : st B := mk (map f (rows s)) (lazy s) (cur s) (asz s).
+
+Definition map_op (o : op A) : op B :=
+  match o with
+  | FetchOne => FetchOne
+  | FetchMany k => FetchMany k
+  | FetchAll => FetchAll
+  | SetArraysize n => SetArraysize n
+  | ObservePure => ObservePure
+  | ObserveMat => ObserveMat
+  | ObserveView v => ObserveView v
+  | Append r => Append (f r)
+  | AppendBad r => AppendBad (f r)
+  end.
+
+Definition map_out (x : out A) : out B :=
+  match x with
+  | ORow r => ORow (option_map f r)
+  | ORows l => ORows (map f l)
+  | OUnit => OUnit
+  | ORaise => ORaise
+  | OCount n => OCount n
+  | OSeen l => OSeen (map f l)
+  | OAppend ok n => OAppend ok n
+  end.
+End MapRows.
+Arguments map_st {A B}. Arguments map_op {A B}. Arguments map_out {A B}.
+
 (* ---- comparison used by the correspondence files (rows are identified by integers) ---- *)
 Definition out_eqb (a b : out Z) : bool :=
   match a, b with
